@@ -50,6 +50,11 @@ def run(rep, facts):
         done = cv(agg_field(ret, 'done'))
         pos_move = position_of_call(r, RP + "::move_input")
         pos_drive = position_of_call(r, "replace_with::replace_with_and_return")
+        if pos_move is None and pos_drive is not None:
+            # compaction written out in parse itself: it is complete where input_len receives the remainder's length
+            # (what it stores is decided by R5.4 / R3.10)
+            ws = [r.nodes.index(nd) for (pl, val, nd, s_) in r.writes if pl[0] == 'field' and pl[2] == 'input_len' and r.nodes.index(nd) > pos_drive]
+            pos_move = max(ws) - 0.5 if ws else None      # a statement precedes its block's terminator
         pos_clear = position_of_call(r, "std::vec::Vec::clear")
         if pos_move is None or pos_drive is None or pos_clear is None or not (pos_clear < pos_drive < pos_move):
             bad.append("a return path does not clear the output, drive the state machine and compact the input, in this order")
